@@ -166,6 +166,17 @@ def apply_convert(mod, how, torch):
             return mod.double() if how == "double_overwrite" else mod.float()
         finally:
             fut.set_overwrite_module_params_on_conversion(old)
+    if how in ("parent_double", "parent_float"):
+        # converted as a submodule of the user's network
+        net = torch.nn.Sequential(mod)
+        net.double() if how == "parent_double" else net.float()
+        return mod
+    if how in ("type64", "type32"):
+        return mod.type(torch.float64 if how == "type64" else torch.float32)
+    if how in ("tolike64", "tolike32"):
+        return mod.to(torch.zeros(1, dtype=torch.float64 if how == "tolike64" else torch.float32))
+    if how == "cpu":
+        return mod.cpu()
     if how == "eval":
         return mod.eval()
     if how == "train":
@@ -180,7 +191,10 @@ def apply_convert(mod, how, torch):
 
 CONVERT_TARGET = {"double": "float64", "to64": "float64", "float": "float32", "to32": "float32",
                   "double_overwrite": "float64", "float_overwrite": "float32",
-                  "reload_assign": None, "eval": None, "train": None}
+                  "parent_double": "float64", "parent_float": "float32",
+                  "type64": "float64", "type32": "float32",
+                  "tolike64": "float64", "tolike32": "float32",
+                  "reload_assign": None, "eval": None, "train": None, "cpu": None}
 
 
 def module_state_snap(mod):
